@@ -137,7 +137,12 @@ def iterm2_unit(method, term, src, override=None, src_mode="RGB", alpha_kind="fl
         eng.genv["ImageSource"] = ctx.ns("term_image.image.common").d["ImageSource"]
         eng.genv["RenderError"] = ClassV("RenderError")
         eng.genv["TermImageUserWarning"] = ClassV("TermImageUserWarning")
-        eng.genv["warnings"] = Namespace("warnings", {"warn": Fn(lambda e, s, a, k: [(None, s)])})
+
+        def warn(e, s, a, k):
+            # a warning the caller's filters escalate to an error surfaces here as an exception of the warning's class
+            e.raise_(ExcVal("TermImageUserWarning"), e.fork(s), fault=True)
+            return [(None, s)]
+        eng.genv["warnings"] = Namespace("warnings", {"warn": Fn(warn)})
         eng.genv["mul"] = Fn(lambda e, s, a, k: e.binop(ast.Mult(), a[0], a[1], s))
         stringio_world(eng)
         stream_world(eng, st)
@@ -266,8 +271,15 @@ def iterm2_unit(method, term, src, override=None, src_mode="RGB", alpha_kind="fl
                 for im in s.ghost.get("strip_images", []):
                     eng.oblige("C11:per-line-image-closed", s, s.H(im)["open"] is False, prop="C11", kind="exit")
             if kind != "return":
-                ok = kind == "raise" and val.cls in ("RenderError", "OSError", "ValueError")
+                ok = kind == "raise" and val.cls in ("RenderError", "OSError", "ValueError", "TermImageUserWarning")
                 eng.oblige(f"only-render-errors-escape:{getattr(val, 'cls', kind)}", s, ok, kind="raise")
+                if kind == "raise" and val.cls == "TermImageUserWarning":
+                    # the size warning comes after the render has everything it needs from the image it was given: an escalated
+                    # warning must find that image already handed to _close_image (as every later failure does), not left to the
+                    # garbage collector.  (A failing open() of the data stream, earlier, is the documented reliance on CPython's
+                    # reference counting - see TRUSTED.)
+                    eng.oblige("C11:image-handed-to-_close_image-before-a-failure-after-the-data-stream-was-opened", s, img0.id in s.ghost["closed_images"],
+                               prop="C11", kind="exit", replay="C11.warn_escalated")
                 continue
             if isinstance(val, Rec) and val.name == "rendered":
                 g = dict(val.f["vt"])
